@@ -380,6 +380,19 @@ func c16ExtractWire(repo string, sp c16WireSpec) (c16Wire, error) {
 	}
 	w.SignerField = c16Bech32Field(gs)
 	if w.SignerField == "" {
+		// one level of indirection: `return []sdk.AccAddress{msg.GetProposer()}`
+		ast.Inspect(gs.Body, func(n ast.Node) bool {
+			if c, ok := n.(*ast.CallExpr); ok && w.SignerField == "" {
+				if sel, ok := c.Fun.(*ast.SelectorExpr); ok && exprString(sel.X) == "msg" {
+					if m := c16MethodOf(tf, sp.msgType, sel.Sel.Name); m != nil && m.Body != nil {
+						w.SignerField = c16Bech32Field(m)
+					}
+				}
+			}
+			return true
+		})
+	}
+	if w.SignerField == "" {
 		return w, fmt.Errorf("%s: %s.GetSigners does not parse a message field", sp.typesFile, sp.msgType)
 	}
 	sf, err := parseFile(repo, sp.srvFile)
